@@ -6,7 +6,7 @@
    corrected call behaves as if the failed one had never happened.  The two classes are real:
    witnesses below. *)
 From Stam Require Import Base.Tac Model.Offset Model.Store Model.StoreExt Model.StoreObs Spec.StoreSpec
-     Proofs.StoreInv Proofs.StoreErr.
+     Proofs.StoreInv Proofs.StoreErr Proofs.StoreSel Proofs.StoreGrow.
 
 Theorem C14_failed_add_frame : forall s o s',
   match o with AddRes _ _ | AddSet _ | InsData _ | Annotate _ => True | _ => False end ->
@@ -29,6 +29,42 @@ Proof.
   destruct (id_get (sidx s) id) as [h|]; [|discriminate].
   destruct (get_set s h) as [ex|]; [destruct (dset_eqb ex d)|]; inversion H; reflexivity.
 Qed.
+
+(* Inside the known classes too, the leftover is purely additive: after any history, a failed
+   add_resource / add_dataset / insert_data / annotate leaves every resource with its text
+   selections under the same handles (new ones only appended), every dataset with its keys and
+   data under the same handles (new ones only appended), and every reference - by public id or by
+   handle, to a resource, dataset, key or data item - that resolved before resolves to the same
+   item.  Nothing that existed is removed, renumbered or renamed by a failed call. *)
+Theorem C14_failed_call_only_adds : forall ops o s',
+  match o with AddRes _ _ | AddSet _ | InsData _ | Annotate _ => True | _ => False end ->
+  step (run ops) o = (s', OErr) ->
+  same_core (run ops) s' /\ ress_ext (run ops) s' /\ sets_ext (run ops) s'.
+Proof. exact reachable_err_grows. Qed.
+
+(* A failed batch (annotate_from_iter, annotate_from_file, an ADD query) that had done n elements
+   is exactly: its first n elements, each added successfully one after the other, then ONE failed
+   annotate() of element n (class Known_C14_batch_prefix keeps that much and no more). *)
+Theorem C14_failed_batch_is_prefix_then_one_failure : forall l s s' n,
+  annotate_batch s l = (s', OErr, n) ->
+  exists b, nth_error l n = Some b
+  /\ (forall i bi, i < n -> nth_error l i = Some bi ->
+        exists h, snd (annotate (annotate_all s (firstn i l)) bi) = OOk h)
+  /\ annotate (annotate_all s (firstn n l)) b = (s', OErr).
+Proof. exact annotate_batch_err. Qed.
+
+Theorem C14_successful_batch_is_the_fold : forall l s s' h n,
+  annotate_batch s l = (s', OOk h, n) -> s' = annotate_all s l /\ n = length l.
+Proof. exact annotate_batch_ok. Qed.
+
+(* the additive leftover is real and the premises are met: the witness of class 1 grows r0 by one selection *)
+Example C14_only_adds_nonvacuous :
+  let ops := [AddRes 0 5] in
+  let b := mkab None (Some (BText (ById 0) (mkoff (CB 1) (CB 2)))) [mkdb (ByHandle 7) None None VNull] in
+  snd (step (run ops) (Annotate b)) = OErr
+  /\ get_res (fst (step (run ops) (Annotate b))) 0 = Some (mkres 0 5 [(1, 2)])
+  /\ get_res (run ops) 0 = Some (mkres 0 5 []).
+Proof. cbv zeta. repeat split. Qed.
 
 (* class 1: the target's text selection stays behind when the data step fails *)
 Example Known_C14_textselection_left_witness :
